@@ -26,7 +26,7 @@ out += ["//@ func (*Entry).Set", "//@   props C10", "//@   requires s != nil", "
         "//@   ensures [C10.ret] result == s", ""]
 # ---- With*: a child of the receiver carrying the setting; the receiver and every other logger untouched
 def with_block(fn, post, extra_keeps_exc=None, at=None):
-    b=[f"//@ func (*Entry).{fn}", "//@   props C10" + (" C11" if fn in ("WithJSONMode","WithColorMode") else ""), "//@   requires s != nil && specFmtInv(s)", "//@   assigns everything", "//@   maypanic",
+    b=[f"//@ func (*Entry).{fn}", "//@   props C10" + (" C11" if fn in ("WithJSONMode","WithColorMode") else "") + (" C03" if fn in ("WithWriter","WithErrorWriter") else ""), "//@   requires s != nil && specFmtInv(s)", "//@   assigns everything", "//@   maypanic",
        keeps_all_but("items"), "//@   keeps Entry.items except s", "//@   keeps map[string]*Entry except old(s.items)", "//@   keeps dualWriter.*",
        "//@   ensures [C10.child] result != nil && fresh(result) && result.owner == s && s.items != nil && (old(s.items) == nil || s.items == old(s.items))",
        f"//@   ensures [C10.carry] {post}"]
